@@ -51,6 +51,11 @@ func checkC15(c c15Case) string {
 	if m := b.metaDiff(); m != "" {
 		return m
 	}
+	if sampledForInterference(c.Cues) {
+		if m := interference(b.sub); m != "" {
+			return m
+		}
+	}
 	got := b.sub.Items
 	if len(got) != len(cues) {
 		return fmt.Sprintf("number of cues changed: %d -> %d", len(cues), len(got))
